@@ -176,7 +176,44 @@ def oracle_initial_zero(args):
     return ok, {"delR": t.delR}, {"delR": 0}, "moments do not start at zero"
 
 
-ORACLES = {"hermitian": oracle_hermitian, "hop_shift": oracle_hop_shift, "collapse": oracle_collapse,
+@safe_oracle
+def oracle_run_moments(args):
+    """along a real A-FSSH run (either electronic integrator, the moment integrator the class picks by default) the moments
+    stay Hermitian and finite after every step, are zero after a collapse, and a collapse leaves rho pure on the active state"""
+    import mudslide
+    from mudslide.afssh import AugmentedFSSH
+    model = mudslide.models.scattering_models[args["model"]]()
+    t = AugmentedFSSH(model, [float(args["x0"])], [float(args["k"])], 0, dt=float(args["dt"]), max_steps=int(args["steps"]),
+                      seed_sequence=int(args["seed"]), electronic_integration=args["integ"], bounds=[-5, 5])
+    problems = []
+    orig = AugmentedFSSH.surface_hopping
+    info = {"steps": 0, "collapses": 0, "max_moment": 0.0}
+
+    def wrapped(self, last_electronics, this_electronics):
+        n0 = len(self.tracer.events.get("collapse", []))
+        orig(self, last_electronics, this_electronics)
+        info["steps"] += 1
+        for name, X in (("delR", self.delR), ("delP", self.delP)):
+            if not np.all(np.isfinite(X)):
+                problems.append("%s not finite at t=%r" % (name, self.time))
+            elif _herm_err(X) > 1e-9 * (1e-12 + float(np.max(np.abs(X)))) + 1e-14:
+                problems.append("%s not Hermitian at t=%r (error %.3g of %.3g)" % (name, self.time, _herm_err(X), float(np.max(np.abs(X)))))
+            info["max_moment"] = max(info["max_moment"], float(np.max(np.abs(X))))
+        if len(self.tracer.events.get("collapse", [])) > n0:
+            info["collapses"] += 1
+            want = np.zeros_like(self.rho)
+            want[self.state, self.state] = 1.0
+            if np.any(self.delR) or np.any(self.delP) or not np.array_equal(self.rho, want):
+                problems.append("after the collapse at t=%r moments are not zero / rho is not the pure active state" % self.time)
+    AugmentedFSSH.surface_hopping = wrapped
+    try:
+        t.simulate()
+    finally:
+        AugmentedFSSH.surface_hopping = orig
+    return not problems, dict(info, problems=problems[:3]), {"problems": []}, "; ".join(problems[:2]) or "ok"
+
+
+ORACLES = {"run_moments": oracle_run_moments, "hermitian": oracle_hermitian, "hop_shift": oracle_hop_shift, "collapse": oracle_collapse,
            "integrators_agree": oracle_integrators_agree, "initial_zero": oracle_initial_zero}
 
 
@@ -281,6 +318,16 @@ def run(ctx):
         if not ok:
             sig = "collapse-event-yaml-representer" if obs.get("exception") == "RepresenterError" else "collapse"
             ctx.oracle_fail(sig, "collapse", a, obs, req, text)
+    for i in range(ctx.budget(6, 80)):
+        a = {"model": ["simple", "dual", "extended"][i % 3], "integ": ["exp", "linear-rk4"][(i // 3) % 2], "x0": -4.0,
+             "k": float(rng.uniform(8, 25)), "dt": 20.0, "steps": 400, "seed": int(rng.integers(1, 2 ** 31))}
+        ok, obs, req, text = oracle_run_moments(a)
+        ctx.case(("run-moments", a["model"], a["integ"], int(obs["collapses"]) > 0))
+        ctx.count("afssh_runs:" + a["integ"])
+        ctx.count("afssh_run_steps", int(obs["steps"]))
+        ctx.count("afssh_run_collapses", int(obs["collapses"]))
+        if not ok:
+            ctx.oracle_fail("afssh-run-moments:" + a["integ"], "run_moments", a, obs, req, text)
     for i in range(ctx.budget(6, 100)):
         a = {"seed": int(rng.integers(1, 10 ** 6)), "dt": 0.2, "which": ["R", "P"][i % 2]}
         ok, obs, req, text = oracle_integrators_agree(a)
